@@ -125,14 +125,15 @@ def order_checks(run, h):
     rng = np.random.RandomState(run.seed)
     fs = 100.0
     corners = {"none": [None, None], "low": [None, 12.0], "high": [1.5, None], "band": [1.5, 12.0]}
-    nrec = 6
+    nrec = 8
     base = []
     for r in range(nrec):
         # 380, 397: a tail is discarded; 300 = 3 x 100 and 292 = 4 x 73 samples: the record ends exactly on a window
         # boundary, so the final window is the one that is one sample short; the last two have other sampling rates
         # (one call on recordings with different time steps: every step acts on each recording at its own rate)
-        n = (380, 397, 300, 292, 311, 205)[r]
-        fs = (100.0, 100.0, 100.0, 100.0, 75.0, 50.0)[r]
+        # (93 and 99 Hz: 1 / (1 / fs) comes out as 92.99999999999999 / 98.99999999999999 in binary)
+        n = (380, 397, 300, 292, 311, 205, 390, 401)[r]
+        fs = (100.0, 100.0, 100.0, 100.0, 75.0, 50.0, 93.0, 99.0)[r]
         mk = lambda: np.cumsum(rng.normal(size=n)) * 0.3 + rng.normal(size=n) + 0.01 * np.arange(n)
         base.append(h.SeismicRecording3C(h.TimeSeries(mk(), 1 / fs), h.TimeSeries(mk(), 1 / fs), h.TimeSeries(mk(), 1 / fs),
                                          degrees_from_north=15.0 * (r + 1)))
